@@ -379,6 +379,15 @@ def rule_substate(facts, rep):
               "underline styles are sub-parameters of 4 (`4:3`); at the end of the parameter the sub-parser must be back in "
               f"Normal, or `ESC[4;3m` is read as `4:3`. {detail}", loc(b))
     rep.count(n_checked)
+    # every `break` of the code table leaves the sub-parameter loop only: an unknown or finished code must not abort the
+    # remaining parameters of the sequence ("codes without a representation change nothing")
+    inner_label = outer[1].get("label") if len(outer) == 2 else None
+    brks = [n for n in hir.walk(d.m) if n.get("k") == "break"]
+    bad = [n for n in brks if n.get("label") is not None and n.get("label") != inner_label]
+    rets = [n for n in hir.walk(d.m) if n.get("k") == "ret"]
+    rep.check(not bad and not rets and len(brks) >= 10, "substate", b["path"], "breaks-leave-only-the-sub-parameter-loop",
+              f"{len(bad)} break(s) of the code table target an outer loop and {len(rets)} return: the codes that follow in the same "
+              f"sequence would be dropped (e.g. ESC[5;31m loses the red)", loc(b, (bad + rets)[0]) if (bad or rets) else loc(b))
     # targets: color_target assigned when entering PrepareCustomColor; r and g cleared when entering Rgb
     for st, vp, arm in d.arms:
         outs = flow.arm_out.get(id(arm)) or frozenset()
